@@ -16,7 +16,8 @@ NUM_RICH = ['0', '1', '42', '1.5', '.5', '1.', '1e3', '1E+5', '1e-5', '0x1F',
 STR_BASIC = ["'s'", '"t"']
 STR_RICH = ["''", '"a"', "'a\"b'", '"\\n\\t\\\\\\"\\/\\x41é"', "'\\0'",
             "'a\\\nb'", "'a\\\r\nb'", '"a\\\u2028b"', "'\\u0041'",
-            "'\x0c\x0b'", '"\x85\x1c"', "'\x1d\x1e'"]
+            "'\x0c\x0b'", '"\x85\x1c"', "'\x1d\x1e'",
+            "'a\\\nb\\\nc'", '"\\\r\n\\\r\\\n"', "'x\\\u2029\\\u2028y'"]
 REGEX_BASIC = ['/re/', '/a/g']
 REGEX_RICH = ['/re/', '/a\\/b/g', '/[/]/', '/=/', '/ /', '/\\s+/gim', '/a/i']
 
@@ -34,7 +35,9 @@ GAP_PLAIN = {'sp': ' ', 'none': '', 'tab': '\t', 'nbsp': ' ',
 GAP_BREAK = {'lf': '\n', 'cr': '\r', 'crlf': '\r\n', 'ls': '\u2028',
              'ps': '\u2029', 'cmtlf': ' /*\n*/ ', 'line': ' //c\n',
              'lfcmt': '\n/*c*/ ', 'cmt_lf': ' /*c*/\n', 'lflf': '\n\n',
-             'ffcmt': '/*\x0c\x85*/\n', 'vtline': '//\x0b\x1c\n'}
+             'ffcmt': '/*\x0c\x85*/\n', 'vtline': '//\x0b\x1c\n',
+             'cmt3': ' /* a\n b\r\n c */ ', 'cmt2lf': '/*\n\n*/',
+             'cmtlsps': '/*\u2028\u2029*/ '}
 
 
 def spell(tok, k, pools):
@@ -77,3 +80,22 @@ def concretise(sent, seed=0, pools='basic', gap='sp', brk='lf',
         parts.append(t.text)
         pos += len(t.text)
     return ''.join(parts)
+
+
+def layout_variant(sent, rng, break_p=0.25):
+    """random layout: {token index: gap text}; tokens flagged nl always get a
+    gap containing a line terminator"""
+    gaps = {}
+    # never the empty gap: adjacent tokens could fuse into other tokens
+    plain = [g for g in GAP_PLAIN.values() if g]
+    brk = list(GAP_BREAK.values())
+    for t in sent.tokens:
+        if t.idx == 0:
+            gaps[0] = rng.choice(['', '\n', ' ', '/* x\n y */', '\r\n'])
+        elif t.nl:
+            gaps[t.idx] = rng.choice(brk)
+        elif rng.random() < break_p and not getattr(t, 'nobreak', False):
+            gaps[t.idx] = rng.choice(brk)
+        else:
+            gaps[t.idx] = rng.choice(plain[:1] * 3 + plain)
+    return gaps
